@@ -169,6 +169,29 @@ fn main() {
                 assert!(save_arrow(&a, "/dev/full").is_err());
             }
         }
+        // one tiny HMC run and one tiny NUTS run (autodiff graph, tensor ops, hooks)
+        "hmc" => {
+            use burn::backend::{Autodiff, NdArray};
+            use mini_mcmc::distributions::Rosenbrock2D;
+            use mini_mcmc::hmc::HMC;
+            type B = Autodiff<NdArray<f32>>;
+            let mut s = HMC::<f32, B, Rosenbrock2D<f32>>::new(Rosenbrock2D { a: 1.0, b: 5.0 }, vec![vec![0.1, 0.2], vec![-0.3, 0.4]], 0.05, 2).set_seed(3);
+            let a = s.run(2 * size, 1);
+            assert_eq!(a.dims(), [2, 2 * size, 2]);
+            // (no bitwise comparison of two seeded runs here: Miri perturbs the results of powf/exp/ln
+            // within their specified accuracy on purpose; C07 checks reproducibility natively)
+            assert!(a.to_data().to_vec::<f32>().unwrap().iter().all(|x| x.is_finite()));
+        }
+        "nuts" => {
+            use burn::backend::{Autodiff, NdArray};
+            use mini_mcmc::distributions::Rosenbrock2D;
+            use mini_mcmc::nuts::NUTSChain;
+            type B = Autodiff<NdArray<f32>>;
+            let mut c = NUTSChain::<f32, B, Rosenbrock2D<f32>>::new(Rosenbrock2D { a: 1.0, b: 5.0 }, vec![0.1, 0.2], 0.8).set_seed(5);
+            let a = c.run(2 + size, 1);
+            assert_eq!(a.dims(), [2 + size, 2]);
+            assert!(a.to_data().to_vec::<f32>().unwrap().iter().all(|x| x.is_finite()));
+        }
         _ => {
             eprintln!("unknown workload {wl}");
             std::process::exit(2);
